@@ -156,7 +156,7 @@ pub fn run_check(ctx: &Ctx) -> Report {
             std::process::exit(2);
         }
     }
-    let cases = ctx.pick(120_000u32, 3_000_000u32) / ctx.shards as u32;
+    let cases = ctx.pick(600_000u32, 12_000_000u32) / ctx.shards as u32;
     let seed = ctx.seed;
     par_shards(ctx.shards, rep, move |shard, r| {
         let table = Table::load();
@@ -168,6 +168,14 @@ pub fn run_check(ctx: &Ctx) -> Report {
             let p = &profiles[t0.below(3)];
             let (src, kind) = match which {
                 0 => (random_tokens(&mut t0), "random-tokens"),
+                5 | 6 => {
+                    // syntactic (not type-directed) trees over the whole grammar, with every identifier declared up front:
+                    // exits in operand positions, functions in loops, returns in odd places, ...
+                    let (prog, _) = crate::props::c07::gen_syntax(&tape[2.min(tape.len())..]);
+                    let mut full: crate::ast::BlockStmt = crate::props::c07::IDENTS.iter().map(|n| crate::ast::let_(n, crate::ast::int(0))).collect();
+                    full.extend(prog);
+                    (print_canonical(&full), "syntactic")
+                }
                 1..=4 => {
                     let (prog, _, used) = gen_program_used(&tape[2.min(tape.len())..], p);
                     let mut t = Tape::new(&tape[(2 + used).min(tape.len())..]);
